@@ -19,6 +19,7 @@ import (
 	"regexp"
 	"strings"
 	"sync"
+	"sync/atomic"
 	"time"
 
 	"verifharness/lib"
@@ -42,6 +43,31 @@ type ssJob struct {
 	Prog []ssStep `json:"prog,omitempty"`
 	Mut  *ssMut   `json:"mut,omitempty"`
 	End  *ssEnd   `json:"end,omitempty"`
+	Fast bool     `json:"fast,omitempty"` // reduced deadlines: the parent has already seen many full-deadline liveness failures
+}
+
+// Liveness deadlines.  A healthy case is over in well under 50 ms; the full deadlines are the
+// ones the property is judged by.  Once the parent has collected ssSlowBudget failures that each
+// cost a full deadline, the defect is established and further cases run with reduced deadlines
+// (and say so), so that a systematic leak or hang cannot stretch a run to hours.
+var ssFast bool
+
+const ssSlowBudget = 24
+
+func ssDl(full, fast time.Duration) time.Duration {
+	if ssFast {
+		return fast
+	}
+	return full
+}
+func ssDlHang() time.Duration  { return ssDl(20*time.Second, 2*time.Second) }
+func ssDlStop() time.Duration  { return ssDl(3*time.Second, 300*time.Millisecond) }
+func ssDlQuiet() time.Duration { return ssDl(5*time.Second, 300*time.Millisecond) }
+func ssDlNote() string {
+	if ssFast {
+		return " [reduced deadline: the same failure was already observed with the full deadline]"
+	}
+	return ""
 }
 
 type ssResult struct {
@@ -55,6 +81,7 @@ type ssResult struct {
 	NA, NB    int         `json:",omitempty"`           // c07: frames identical to the reference / well-formed but different
 	ServeErr  string      `json:"serve_err,omitempty"`
 	Exit      bool        `json:"exit,omitempty"` // the child must be replaced (a goroutine is stuck)
+	Slow      bool        `json:"slow,omitempty"` // a liveness deadline expired in this case
 	// parent side
 	Crash   bool   `json:"crash,omitempty"`
 	Timeout bool   `json:"timeout,omitempty"`
@@ -109,9 +136,9 @@ func (s *ssSess) state() string {
 // finish waits for Serve and applies the release oracles (fds, handler objects, goroutines).
 func (s *ssSess) finish(res *ssResult) (extra []wire.Pkt) {
 	k := s.cfg.Kind
-	if !s.srv.Wait(20 * time.Second) {
-		res.Findings = append(res.Findings, ssFinding{Key: k + "/serve-hang", What: "Serve did not return within 20 s after the stream ended", Actual: strings.Join(ssPkgGoroutines(), "\n\n")})
-		res.Exit = true
+	if !s.srv.Wait(ssDlHang()) {
+		res.Findings = append(res.Findings, ssFinding{Key: k + "/serve-hang", What: fmt.Sprintf("Serve did not return within %v after the stream ended", ssDlHang()) + ssDlNote(), Actual: strings.Join(ssPkgGoroutines(), "\n\n")})
+		res.Exit, res.Slow = true, true
 		return nil
 	}
 	if s.srv.serveErr != nil {
@@ -134,9 +161,9 @@ func (s *ssSess) finish(res *ssResult) (extra []wire.Pkt) {
 			res.Findings = append(res.Findings, ssFinding{Key: key, What: fmt.Sprintf("%s object #%d for %s was closed %d times by the time Serve returned", o.Kind, o.ID, o.Path, o.Closed), Expected: "closed == 1", Actual: fmt.Sprintf("%+v", o)})
 		}
 	}
-	if g := ssWaitQuiet(5 * time.Second); len(g) > 0 {
-		res.Findings = append(res.Findings, ssFinding{Key: k + "/goroutine-leak", What: "package goroutines still alive 5 s after Serve returned", Expected: "none", Actual: strings.Join(g, "\n\n")})
-		res.Exit = true
+	if g := ssWaitQuiet(ssDlQuiet()); len(g) > 0 {
+		res.Findings = append(res.Findings, ssFinding{Key: k + "/goroutine-leak", What: fmt.Sprintf("package goroutines still alive %v after Serve returned", ssDlQuiet()) + ssDlNote(), Expected: "none", Actual: ssTrim(strings.Join(g, "\n\n"), 4000)})
+		res.Exit, res.Slow = true, true
 	}
 	return extra
 }
@@ -173,11 +200,11 @@ func ssRunRef(cfg ssCfg, prog []ssStep, root string) (*ssRef, ssResult) {
 			break
 		}
 		s.srv.Send(f)
-		rep, err := s.srv.Recv(20 * time.Second)
+		rep, err := s.srv.Recv(ssDlHang())
 		if err != nil {
 			res.Findings = append(res.Findings, ssFinding{Key: fmt.Sprintf("%s/valid-request-unanswered/%s", cfg.Kind, q.Kind), What: "no reply to a valid request with the stream still open: " + err.Error(), Actual: fmt.Sprintf("step %d %+v", i, st)})
 			ref.Bad = true
-			res.Exit = err == errSSTimeout
+			res.Exit, res.Slow = err == errSSTimeout, err == errSSTimeout
 			break
 		}
 		res.Findings = append(res.Findings, s.trk.observe(q, rep)...)
@@ -251,10 +278,10 @@ func ssRunC07(ref *ssRef, m ssMut, root string) ssResult {
 				before = s.state()
 			}
 			s.srv.Send(stream[q.Off : q.Off+q.Len])
-			rep, err := s.srv.Recv(20 * time.Second)
+			rep, err := s.srv.Recv(ssDlHang())
 			if err != nil {
 				res.Findings = append(res.Findings, ssFinding{Key: fmt.Sprintf("%s/well-formed-unanswered/%s", k, q.Kind), What: "no reply to a well-formed request with the stream still open: " + err.Error(), Actual: hex.EncodeToString(stream[q.Off : q.Off+q.Len])})
-				res.Exit = err == errSSTimeout
+				res.Exit, res.Slow = err == errSSTimeout, err == errSSTimeout
 				dead = true
 				break
 			}
@@ -274,8 +301,9 @@ func ssRunC07(ref *ssRef, m ssMut, root string) ssResult {
 		s.srv.CloseInput()
 	default:
 		s.srv.Send(rest)
-		if !s.srv.Wait(3 * time.Second) { // the server must stop on its own after a malformed packet
-			res.Findings = append(res.Findings, ssFinding{Key: malKey("keeps-serving-after-malformed"), What: "Serve did not return within 3 s after a malformed packet (stream still open)"})
+		if !s.srv.Wait(ssDlStop()) { // the server must stop on its own after a malformed packet
+			res.Findings = append(res.Findings, ssFinding{Key: malKey("keeps-serving-after-malformed"), What: fmt.Sprintf("Serve did not return within %v after a malformed packet (stream still open)", ssDlStop()) + ssDlNote()})
+			res.Slow = true
 		}
 		s.srv.CloseInput()
 	}
@@ -379,10 +407,10 @@ func ssRunC11(cfg ssCfg, prog []ssStep, end ssEnd, root string) ssResult {
 		if noreply {
 			break
 		}
-		rep, err := s.srv.Recv(20 * time.Second)
+		rep, err := s.srv.Recv(ssDlHang())
 		if err != nil {
 			add(ssFinding{Key: fmt.Sprintf("%s/valid-request-unanswered/%s", k, q.Kind), What: "no reply to a valid request with the stream still open: " + err.Error(), Actual: fmt.Sprintf("step %d %+v", i, prog[i])})
-			res.Exit = err == errSSTimeout
+			res.Exit, res.Slow = err == errSSTimeout, err == errSSTimeout
 			dead = true
 			break
 		}
@@ -541,6 +569,7 @@ func ssChildMain(args []string) {
 }
 
 func ssDoJob(job *ssJob, root string, known map[string]*ssKnown) ssResult {
+	ssFast = job.Fast
 	kn := known[job.PID]
 	if kn == nil {
 		if job.Cfg == nil {
@@ -635,8 +664,10 @@ type ssPJob struct {
 	End  *ssEnd
 }
 
+var ssSlowSeen atomic.Int32
+
 func (j *ssPJob) wire(withProg bool) []byte {
-	w := ssJob{Kind: j.Kind, PID: j.PID, Mut: j.Mut, End: j.End}
+	w := ssJob{Kind: j.Kind, PID: j.PID, Mut: j.Mut, End: j.End, Fast: ssSlowSeen.Load() >= ssSlowBudget}
 	if withProg {
 		w.Cfg, w.Prog = &j.Cfg, j.Prog
 	}
@@ -666,6 +697,9 @@ func (p *ssProc) call(j *ssPJob) (res ssResult, alive bool) {
 		if e := json.Unmarshal(r.line, &res); e != nil {
 			p.kill()
 			return ssResult{Crash: true, Stderr: "bad result line: " + e.Error()}, false
+		}
+		if res.Slow {
+			ssSlowSeen.Add(1)
 		}
 		if res.Exit {
 			p.cmd.Wait()
